@@ -207,6 +207,40 @@ def loadSamePrefix (fc : Char → Char) (std : List Name) : List (List LibEntry)
     let first ← place fc std std.length l
     ls.foldlM (fun cur lib => mergeInto fc cur std.length lib) first
 
+/-! ### the name-keyed sections (unit classes, units, unit modifiers, value classes, attributes, properties) -/
+
+/-- one entry of a section: name, attributes as (name, value) pairs, and whether it carries `inLibrary` -/
+structure SEntry where
+  name : Str
+  attrs : List (Str × Str)
+  inLib : Bool
+deriving DecidableEq, Repr
+
+def sameKey (fc : Char → Char) (a b : Str) : Bool := foldS fc a == foldS fc b
+
+/-- `HedSchemaSection._add_to_dict/_check_if_duplicate` over a list of new entries: an entry whose (folded)
+name is already bound is recorded in `duplicate_names` and binds nothing.  `acc` = entries bound so far. -/
+def addAll (fc : Char → Char) : List SEntry → List SEntry → List Str → List SEntry × List Str
+  | [], acc, d => (acc, d)
+  | e :: es, acc, d =>
+    if acc.any (fun x => sameKey fc x.name e.name) then addAll fc es acc (d ++ [e.name])
+    else addAll fc es (acc ++ [e]) d
+
+/-- `section.get(name)` -/
+def sectionGet (fc : Char → Char) (sec : List SEntry) (n : Str) : Option SEntry :=
+  sec.find? (fun x => sameKey fc x.name n)
+
+/-- what the loader offers to the section: everything of an unmerged library file; only the `inLibrary`
+entries of a merged file that is appended (`_add_to_dict_base`) -/
+def offered (lib : List SEntry) (appendingMerged : Bool) : List SEntry :=
+  if appendingMerged then lib.filter (·.inLib) else lib
+
+/-- merging one section of a library into the partner's; `has_duplicates()` refuses the result of an append -/
+def mergeSection (fc : Char → Char) (base lib : List SEntry) (appendingMerged : Bool) :
+    Except (List Str) (List SEntry) :=
+  let r := addAll fc (offered lib appendingMerged) base []
+  if r.2.isEmpty then .ok r.1 else .error r.2
+
 /-! ### several versions under one prefix: the header guards of `SchemaLoader.__init__` -/
 
 /-- One bundled schema file (merged form): its `withStandard` header value ("" for a standard or stand-alone
